@@ -62,8 +62,11 @@ PLANS = {
     },
     "C08": {
         "quick": [("c08_hist2", ("delimited",), RW, 4000, None, None),
-                  ("c08_park2", ("delimited",), RW + ["Park", "Resume"], 3000, None, None)],
+                  ("c08_park2", ("delimited",), RW + ["Park", "Resume"], 3000, None, None),
+                  # one reader object, two data sets: read, closed or not, and read again
+                  ("c08_again", ("delimited",), session_check.READ_ACTIONS + ["ReadAgain"], None, None, None)],
         "thorough": [("c08_hist2", BOTH, RW, None, None, None),
+                     ("c08_again", BOTH, session_check.READ_ACTIONS + ["ReadAgain"], None, None, None),
                      ("c08_park2", BOTH, RW + ["Park", "Resume"], None, None, None),
                      ("c08_park3", (), RW + ["Park", "Resume"], 0, None, None),
                      ("c08_hist4sim", ("delimited",), RW, 60000, 3000, 60),
